@@ -12,7 +12,7 @@ shutil.copy(W + "/meta.json", d + "/meta.agent.json")
 a = json.load(open(d + "/meta.agent.json"))
 m = {"property": prop, "breaks": a.get("what_it_breaks"), "needs_to_manifest": a.get("needs_to_manifest"),
      "origin": "fresh sub-agent given only the property text and a scratch worktree (plus, for second-wave changes, a hint which code areas earlier seeded changes already used)",
-     "confirmed": "suite (109 tests + 40 doctests) green with the change, demo fails with / passes without it (agent's run, see meta.agent.json); check run with VERIF_REPO=<worktree> ./check %s quick" % prop,
+     "confirmed": "suite (109 tests + 40 doctests) green with the change, demo fails with / passes without it (agent's run, see meta.agent.json; re-run by the lead with tools/confirm_seeded.sh from wave 17 on); check run with VERIF_REPO=<worktree> ./check %s quick" % prop,
      "check_result": res, "why_caught": why}
 json.dump(m, open(d + "/meta.json", "w"), indent=1)
 subprocess.run(["git", "-C", "/repo", "worktree", "remove", "--force", W])
